@@ -23,7 +23,7 @@ def keylog_text(keylog, upper=False, crlf=False):
     return ("\r\n" if crlf else "\n").join(lines) + ("\r\n" if crlf else "\n")
 
 
-def run_tlexport(packets, keylog_txt=None, args=(), capture_kw=None, legacy=False, timeout=120, cwd=None, env_extra=None):
+def run_tlexport(packets, keylog_txt=None, args=(), capture_kw=None, legacy=False, timeout=120, cwd=None, env_extra=None, switch_interval=None):
     """packets: list of (frame bytes, ts).  -> dict(rc, stdout, stderr, frames (decoded), raw (undecoded list), problems)"""
     d = tempfile.mkdtemp(prefix="tlv-e2e-")
     try:
@@ -34,6 +34,10 @@ def run_tlexport(packets, keylog_txt=None, args=(), capture_kw=None, legacy=Fals
         else:
             pcapng.write_capture(inp, packets, **(capture_kw or {}))
         cmd = [PY, "-m", "tlexport.main", "-i", inp, "-o", outp]
+        if switch_interval is not None:
+            # the same program under another (legal) thread switch interval of the interpreter
+            cmd = [PY, "-c", "import sys; sys.setswitchinterval(%r); sys.argv[0] = 'tlexport'; import tlexport.main as m; m.run()" % switch_interval,
+                   "-i", inp, "-o", outp]
         if keylog_txt is not None:
             kl = os.path.join(d, "keys.log")
             open(kl, "w", newline="").write(keylog_txt)
